@@ -7,6 +7,18 @@ TECH = "bounded symbolic execution of the real code's go/ssa form, every branch/
 BASE = "cd /repo && go test -vet=off -count=1 -timeout 25m ./..."
 
 CLAIMED = {
+ "C01": dict(
+   text="All histories of k=2/3 actions {start read/read-all/write/write-all, Cancel, Close, poll cycle} over two objects (stream socket, pipe read end, pipe write end as file objects) sharing one real IO + epoll poller on the kernel model, started inline or at the dispatch limit, with every kernel outcome (data, EOF, EAGAIN, error), every poll batch of <= 1/2 entries in any order with any mask incl. ERR/HUP (HUP alone on pipes), and completion callbacks that re-issue, cancel or close themselves or the other object; plus both directions armed on one socket followed by k=2/3 further actions. Asserted: each callback at most once; Cancel completes each in-flight operation once with ErrCancelled; nothing invoked after Close returned; every uncompleted operation is armed in sonic's books AND in the kernel's interest list; an ERR/HUP entry completes an in-flight operation.",
+   note="Kernel contract of DESIGN.md §3 (vsys/vkernel) is assumed: spurious readiness allowed, HUP/ERR is a permanent condition after which I/O no longer returns EAGAIN. Objects: sonic file over socket/pipe descriptors; listener, packet conn and AsyncAdapter follow the same reactor code but are not in this harness; kqueue back end, more than 2 objects / 2 simultaneous entries are outside the claim.",
+   ref="DESIGN.md §4 C01"),
+ "C02": dict(
+   text="AsyncRead/AsyncReadAll/AsyncWrite/AsyncWriteAll on the real file code over the real poller and kernel model with buffer length L symbolic in [1,2^31], inline or deferred start, up to 3/4 data-transferring system calls of symbolic sizes with would-block, EOF and errors between them and 3/4 poll cycles: count passed to the callback equals the bytes the model moved, buffer bytes at an arbitrary index equal the delivered stream (reads) / accepted stream equals the caller's bytes (writes), *All succeeds only with n == L, on error n <= transferred, callback at most once, Dispatched restored, nothing pending after completion.",
+   note="More than 3/4 kernel segments per operation is outside the claim (the model prunes them); AsyncAdapter and TLS not covered by this harness.",
+   ref="DESIGN.md §4 C02"),
+ "C03": dict(
+   text="Shadow-ledger harness over the C01 world plus a sonic.Timer and Post: after every step of all histories of k=2/3 actions (start ops on a socket or a REGULAR FILE, Cancel, Close, poll with EINTR allowed, timer arm/cancel, Post) Pending() equals operations in flight (deferred ops + armed timer + posts not run) and Posted() the posts not run; PollOne returns n>0 when it dispatched and ErrTimeout when nothing was ready, never another error; RunPending from every armed configuration of k=2/3 set-up steps returns without error exactly when the ledger is 0, and the kernel model asserts that epoll_wait(-1) is never entered when nothing registered can become ready.",
+   note="RunWarm/Run (infinite by design) and concurrent posting (C05) are outside; at most 4/6 epoll_wait calls per history.",
+   ref="DESIGN.md §4 C03"),
  "C20": dict(
    text="All histories of k=4 (quick) / 6 (thorough) operations {save+Push(seq, slot), Pop(seq)+Discard} over the real ByteBuffer + SlotSequencer + SlotOffsetter + sequencedSlots + FenwickTree + sort.Search, with SYMBOLIC sequence numbers (any order, duplicates, misses), packet lengths case-split in 1..3 and symbolic packet bytes, maxSlots=3, maxBytes=16; followed by a drain of everything still parked in insertion or reverse order. Asserted: popped slot addresses exactly the bytes saved under that number (every byte) before the discard, discard removes exactly them, all others stay retrievable and intact, duplicates rejected without change, capacity excess reported as error, Size()/Bytes()/SaveLen equal the ghost totals.",
    note="Bounded: histories longer than k, packets longer than 3 bytes, larger trees are outside the claim; PopRange (unexported, unused) not covered. Trusts go/ssa, the engine, z3/cvc5.",
